@@ -260,6 +260,8 @@ def read_run(ops, outs):
         f = l.split()
         if not f or l.startswith("#"):
             continue
+        if f[0] != "cfg" and generic_output(o) and cfg is not None:
+            break       # the runner's own line (watchdog, crash, missing output): nothing after it can be judged; left to the diff
         if f[0] == "cfg":
             if o != "ok":
                 return None, []
@@ -394,6 +396,12 @@ def read_run(ops, outs):
     return cfg, evs
 
 
+def ans_of(e):
+    """first word of the answer to an arrival: pass | fallback | lost (answered by something else) | none"""
+    t = e.out.split()
+    return t[0] if t else "none"
+
+
 ALLOWED_EDGES = {("standby", "tripped"), ("tripped", "recovering"), ("recovering", "standby"), ("recovering", "tripped")}
 
 
@@ -411,11 +419,11 @@ def monitor_c05(ops, outs):
         if e.before != e.after and (e.before, e.after) not in ALLOWED_EDGES and not e.syn:
             bad.append("edge: line %d state moved %s -> %s" % (e.idx, e.before, e.after))
         if e.kind == "start":
-            ans = e.out.split()[0]
-            if trip_t is not None and trip_t <= e.t < trip_t + cfg["fb"] and ans != "fallback":
+            ans = ans_of(e)
+            if trip_t is not None and trip_t <= e.t < trip_t + cfg["fb"] and ans in ("pass", "lost"):
                 bad.append("shield: line %d request at t=%d answered %r although the breaker tripped at %d and the fallback duration %d has not elapsed"
                            % (e.idx, e.t, ans, trip_t, cfg["fb"]))
-            if e.before == "standby" and ans != "pass":
+            if e.before == "standby" and ans in ("fallback", "lost"):
                 bad.append("standby: line %d request at t=%d answered %r while the breaker was in standby" % (e.idx, e.t, ans))
         if e.kind == "finish" and e.after == "tripped" and e.before != "tripped":
             trip_t = e.t
@@ -455,7 +463,7 @@ def ramp_decisions(cfg, evs):
             if e.t > seg["t0"] + cfg["rec"]:
                 break
             yield e, p, f, e.t - seg["t0"], seg
-            if e.out.split()[0] == "pass":
+            if ans_of(e) == "pass":
                 p += 1
             else:
                 f += 1
@@ -468,7 +476,7 @@ def monitor_c12(ops, outs):
         return bad
     rec = cfg["rec"]
     for e, p, f, el, seg in ramp_decisions(cfg, evs):
-        ans = e.out.split()[0]
+        ans = ans_of(e)
         if ans == "pass":
             # fraction passed since recovery began, this request included, at this instant
             if (p + 1) * 2 * rec > el * (p + f + 1):
@@ -479,16 +487,16 @@ def monitor_c12(ops, outs):
             if (p + 1) * 2 * rec < el * (p + f + 1):
                 bad.append("refused: line %d at %d ns of a %d ns recovery, %d passed %d refused so far: passing would keep the fraction %d/%d below the ramp"
                            % (e.idx, el, rec, p, f, p + 1, p + f + 1))
-        else:
+        elif ans == "lost":
             bad.append("output: line %d %r" % (e.idx, e.out))
         if len(bad) > 5:
             return bad
     for seg in recoveries(cfg, evs):
         if seg["end"] == "after":
             e = seg["arrivals"][-1]
-            if e.out.split()[0] != "pass" or (e.after != "standby" and not e.syn):
+            if ans_of(e) in ("fallback", "lost") or (ans_of(e) == "pass" and e.after != "standby" and not e.syn):
                 bad.append("after-recovery: line %d first request after the recovery period (t=%d > %d+%d) answered %r in state %s"
-                           % (e.idx, e.t, seg["t0"], rec, e.out.split()[0], e.after))
+                           % (e.idx, e.t, seg["t0"], rec, ans_of(e), e.after))
     # a re-trip shields the backend anew: the C05 shield clause
     bad += [m for m in monitor_c05(ops, outs) if m.startswith("shield")]
     # during recovery the breaker trips again iff the condition matches again (the C18 decision rule, recovering completions only)
@@ -576,7 +584,7 @@ def latency_bounds(cfg, evs):
     buckets = [[] for _ in range(HIST_BUCKETS)]
     idx, last_roll = 0, None
     for e in evs:
-        if e.kind == "start" and e.out.split()[0] == "pass":
+        if e.kind == "start" and ans_of(e) == "pass":
             started[e.id] = e.t
         if e.kind != "finish":
             continue
@@ -1074,51 +1082,81 @@ def ensure_bin():
     return BIN
 
 
-def annotate(scens):
-    """run the raw scenarios through `c05 annotate`: oracle values filled in, outputs alongside"""
-    if not scens:
-        return []
-    binp = ensure_bin()
-    jobs = 8
-    chunks = [scens[i::jobs] for i in range(jobs)]
-    procs = []
-    for c in chunks:
-        if not c:
-            procs.append(None)
-            continue
-        text = "".join("\n".join(s) + "\n" for s in c)
-        p = subprocess.Popen([binp, "annotate"], stdin=subprocess.PIPE, stdout=subprocess.PIPE, stderr=subprocess.DEVNULL, text=True)
-        procs.append((p, text))
-    import threading
-    res = [None] * jobs
+GENERIC = ("timeout", "dead", "panic", "env-error", "<no", "no-output")
+DROPPED_HELPER = ["# dropped: the annotation helper returned no well-formed answer for this scenario", "cfg fb=1 rec=1 cp=1 px=bad go=!"]
 
-    def run(k):
-        p, text = procs[k]
+
+def generic_output(o):
+    """an output line the runner itself produced (watchdog, crash, missing line): says nothing about the breaker"""
+    t = o.split()
+    return not t or t[0].startswith(GENERIC) or "quiesce-timeout" in o or "inconclusive" in o
+
+
+def _annotate_batch(binp, batch, timeout):
+    """one helper process over a batch of scenarios -> per scenario (lines, outs) or None when its answer is short / ill-formed"""
+    text = "".join("\n".join(s) + "\n" for s in batch)
+    try:
+        p = subprocess.Popen([binp, "annotate"], stdin=subprocess.PIPE, stdout=subprocess.PIPE, stderr=subprocess.DEVNULL, text=True)
         try:
-            res[k] = p.communicate(text, timeout=300)[0].split("\n")
+            got_all = p.communicate(text, timeout=timeout)[0].split("\n")
         except subprocess.TimeoutExpired:
             p.kill()
-            res[k] = []
-    th = [threading.Thread(target=run, args=(k,)) for k in range(jobs) if procs[k]]
-    for t in th:
-        t.start()
-    for t in th:
-        t.join()
+            p.communicate()
+            got_all = []
+    except OSError:
+        got_all = []
+    res, pos = [], 0
+    for s in batch:
+        got = got_all[pos:pos + len(s)]
+        pos += len(s)
+        ok = len(got) == len(s)
+        lines, outs = [], []
+        for raw, g in zip(s, got):
+            if raw.startswith("#"):
+                lines.append(raw)
+                outs.append("#")
+                continue
+            if "\t" not in g:
+                ok = False
+                break
+            a, o = g.split("\t", 1)
+            if generic_output(o) or a.split()[:2] != raw.split()[:2]:
+                ok = False
+                break
+            lines.append(a)
+            outs.append(o)
+        res.append((lines, outs) if ok else None)
+    return res
+
+
+def annotate(scens):
+    """run the raw scenarios through `c05 annotate`: oracle values filled in, outputs alongside.  A scenario whose answer is
+    short or ill-formed (helper starved, killed, watchdog) is retried in smaller batches and finally dropped, never raised"""
+    if not scens:
+        return []
+    try:
+        binp = ensure_bin()
+    except Exception:
+        return [(list(DROPPED_HELPER), ["#", "err"]) for _ in scens]
+    import concurrent.futures as cf
+    jobs = 8
     out = [None] * len(scens)
-    for k, c in enumerate(chunks):
-        pos = 0
-        for j, s in enumerate(c):
-            got = (res[k] or [])[pos:pos + len(s)]
-            pos += len(s)
-            lines, outs = [], []
-            for raw, g in zip(s, got + [""] * (len(s) - len(got))):
-                if "\t" in g:
-                    a, o = g.split("\t", 1)
+    todo = list(range(len(scens)))
+    for attempt, (size, timeout) in enumerate(((max(1, (len(scens) + jobs - 1) // jobs), 300), (8, 120), (1, 60))):
+        if not todo:
+            break
+        batches = [todo[i:i + size] for i in range(0, len(todo), size)]
+        with cf.ThreadPoolExecutor(jobs if attempt == 0 else 4) as ex:
+            results = list(ex.map(lambda ids: _annotate_batch(binp, [scens[i] for i in ids], timeout), batches))
+        todo = []
+        for ids, res in zip(batches, results):
+            for i, r in zip(ids, res):
+                if r is None:
+                    todo.append(i)
                 else:
-                    a, o = raw, g      # comment lines come back as '#'
-                lines.append(a if not raw.startswith("#") else raw)
-                outs.append(o)
-            out[k + j * jobs] = (lines, outs)
+                    out[i] = r
+    for i in todo:
+        out[i] = (list(DROPPED_HELPER), ["#", "err"])
     return out
 
 
@@ -1131,6 +1169,13 @@ def float_ramp(dur, a, d, el):
 
 def ambiguous(lines, outs):
     """op-line indices of ramp decisions whose float64 evaluation is not safely the exact one"""
+    try:
+        return _ambiguous(lines, outs)
+    except Exception:
+        return [-1]      # unreadable run: treated as not usable (the caller drops the scenario after its retries)
+
+
+def _ambiguous(lines, outs):
     cfg, evs = read_run(lines, outs)
     idx = []
     if cfg is None:
@@ -1175,6 +1220,9 @@ def gen(rng, tier, focus):
         for k in range(n):
             lines, outs = ann[k]
             amb = ambiguous(lines, outs)
+            if amb and amb[0] < 0:
+                ann[k] = (list(DROPPED_HELPER), ["#", "err"])
+                continue
             if amb:
                 i = amb[0]
                 raws[k] = [l for l in lines[:i] if not l.startswith("# nudged")] + ["adv %d" % max(1, int(kvget(lines[0].split(), "rec", "0")) // 10 ** 6)] + lines[i:]
@@ -1220,6 +1268,8 @@ def describe(ops, outs, hist):
             hist["float:nudged-inputs"] += int(l.split("=")[1])
         if l.startswith("# dropped: float"):
             hist["float:dropped-scenarios"] += 1
+        if l.startswith("# dropped: the annotation helper"):
+            hist["helper:dropped-scenarios"] += 1
         if l.startswith("# dropped: the scenario would run past"):
             hist["clock:dropped-scenarios"] += 1
     cfg, evs = read_run(ops, outs)
@@ -1229,7 +1279,7 @@ def describe(ops, outs, hist):
     for e in evs:
         hist["op:" + e.kind] += 1
         if e.kind == "start":
-            hist["answer:%s-in-%s" % (e.out.split()[0], e.before)] += 1
+            hist["answer:%s-in-%s" % (ans_of(e), e.before)] += 1
         if e.before != e.after:
             hist["edge:%s->%s" % (e.before, e.after)] += 1
     for e, p, f, el, seg in ramp_decisions(cfg, evs):
